@@ -56,7 +56,7 @@ Ops_DMeth == {"vdefer", "adefer", "stop", "fail"}
 \* Ret-focused: ret_to!/ret_some_to! Rets used, dropped, kept in actor state or carried by calls, against every lifecycle state
 Ops_RTop == {"acreate", "mkret", "ret", "retdrop", "call", "pcall", "kill", "owndrop", "run"}
 Ops_RBody == {"ret", "retdrop"}
-Ops_RMeth == {"stop", "ret", "retdrop", "keepret"}
+Ops_RMeth == {"stop", "ret", "retdrop", "keepret", "mkret"}
 \* Fwd-focused: fwd_to! Fwds used against every lifecycle state of the target, mixed with ordinary calls
 Ops_FTop == {"acreate", "mkfwd", "fwd", "call", "kill", "owndrop", "run", "dropstakker"}
 Ops_FBody == {"fwd", "call"}
